@@ -1,15 +1,29 @@
 (* Corr/C02.v -- correspondence interface for C02: a store (library-written or independently written),
    the graph its writer intended, and what the library makes of it (validation verdict, read result). *)
 From Geff Require Export Base Dtype Vlen Tree Validate Write Read SpecDecode.
+From Geff Require Export KeyStore KeyTie KeyNames.
+From Geff Require Meta.
 Open Scope list_scope.
 
-Inductive input := IStore (root : znode) (intended : option sgraph).
+(* IStoreK: IStore plus the RAW KEYS of the same store (KeyStore.v): zarr format, key -> document / decoded chunk, and the library's
+   GEFF_VERSION when the root's geff document is inside the encoding of the metadata model (KeyTie.v says what is compared).
+   IKeysNeg: a negative control -- a store laid out with a WRONG key by the independent writer: the raw keys must still be the
+   hierarchy the zarr API shows, and the key-level reading of the specification must REJECT it. *)
+Inductive input := IStore (root : znode) (intended : option sgraph)
+                 | IStoreK (root : znode) (intended : option sgraph) (f : fmt) (raw : kstore) (gv : option string)
+                 | IKeysNeg (root : znode) (intended : sgraph) (f : fmt) (raw : kstore) (gv : option string).
 Inductive obs := OStore (valid : bool) (libread : res mgraph).
 
 Definition osg_eqb (a : option sgraph) (b : sgraph) : bool :=
   match a with Some x => sgraph_eqb x b | None => false end.
 
 (* [validator model = library verdict; reader model = library read; spec decoding = library read; spec decoding = intended] *)
+(* the key-level checks: [raw keys = the hierarchy of the API dump; the raw keys hold the intended graph as the specification lays it
+   out; the dumped hierarchy is well-formed in the sense of the round-trip theorem (C02_keys_roundtrip_tree)] *)
+Definition diag_keys (root : znode) (intended : option sgraph) (f : fmt) (raw : kstore) (gv : option string) : list bool :=
+  [ tie f raw gv (Some root);
+    match intended with Some ex => spec_keys_ok f raw gv ex | None => true end;
+    wf_tree root ].
 Definition diag (c : input * obs) : list bool :=
   match c with
   | (IStore root intended, OStore valid libread) =>
@@ -17,6 +31,18 @@ Definition diag (c : input * obs) : list bool :=
         res_eqb mgraph_eqb (read_to_memory KObj (Some root) true None None) libread;
         match libread with Ok g => osg_eqb (spec_decode root) (of_mgraph g) | Err _ => true end;
         match intended with Some ex => osg_eqb (spec_decode root) ex | None => true end ]
+  | (IStoreK root intended f raw gv, OStore valid libread) =>
+      [ Bool.eqb (is_ok (validate_structure KObj (Some root))) valid;
+        res_eqb mgraph_eqb (read_to_memory KObj (Some root) true None None) libread;
+        match libread with Ok g => osg_eqb (spec_decode root) (of_mgraph g) | Err _ => true end;
+        match intended with Some ex => osg_eqb (spec_decode root) ex | None => true end ]
+      ++ diag_keys root intended f raw gv
+  | (IKeysNeg root intended f raw gv, OStore valid libread) =>
+      [ Bool.eqb (is_ok (validate_structure KObj (Some root))) valid;
+        res_eqb mgraph_eqb (read_to_memory KObj (Some root) true None None) libread;
+        tie f raw gv (Some root);
+        negb (spec_keys_ok f raw gv intended) ]
   end.
 Definition check (c : input * obs) : bool := forallb (fun b => b) (diag c).
-Definition model (i : input) : option sgraph := match i with IStore root _ => spec_decode root end.
+Definition model (i : input) : option sgraph :=
+  match i with IStore root _ | IStoreK root _ _ _ _ | IKeysNeg root _ _ _ _ => spec_decode root end.
